@@ -16,9 +16,27 @@ func (b BudgetExceeded) Error() string { return "budget exceeded: " + b.What }
 
 // InjErr is an injected I/O failure, identified by the call index it was
 // produced at.
-type InjErr struct{ K int }
+type InjErr struct {
+	K    int
+	Wrap error // the error it wraps, if any (errors.Is(e, Wrap) is then true)
+}
 
-func (e *InjErr) Error() string { return fmt.Sprintf("injected I/O failure at call %d", e.K) }
+func (e *InjErr) Error() string {
+	if e.Wrap != nil {
+		return fmt.Sprintf("injected I/O failure at call %d: %v", e.K, e.Wrap)
+	}
+	return fmt.Sprintf("injected I/O failure at call %d", e.K)
+}
+func (e *InjErr) Unwrap() error { return e.Wrap }
+
+// Error kinds of an injected source failure: what the error value looks like to the caller.
+const (
+	ErrPlain             = iota // an error of its own type
+	ErrWrapsEOF                 // wraps io.EOF (errors.Is(err, io.EOF) holds, err != io.EOF)
+	ErrWrapsUnexpected          // wraps io.ErrUnexpectedEOF
+	ErrBareUnexpectedEOF        // the bare sentinel io.ErrUnexpectedEOF, as a truncated upstream (gzip, http body) returns it
+	NumErrKinds
+)
 
 // Sink is an io.Writer that records everything, counts calls and can fail.
 type Sink struct {
@@ -112,6 +130,8 @@ type Source struct {
 	FailAt   int  // 1-based call index that fails (0: never); stays failed afterwards unless FailOnce
 	FailOnce bool // only call FailAt fails (a transient error); later calls carry on
 	FailData bool // the failing call also returns some bytes
+	ErrKind  int  // what the injected error looks like (ErrPlain ...)
+	Bare     int  // number of bare io.ErrUnexpectedEOF failures returned (ErrBareUnexpectedEOF)
 	Budget   int
 	EOFs     int
 	Errs     []*InjErr
@@ -130,7 +150,18 @@ func (s *Source) Read(p []byte) (int, error) {
 	}
 	if s.FailAt > 0 && (s.Calls == s.FailAt || (s.Calls > s.FailAt && !s.FailOnce)) {
 		e := &InjErr{K: s.Calls}
+		switch s.ErrKind {
+		case ErrWrapsEOF:
+			e.Wrap = io.EOF
+		case ErrWrapsUnexpected:
+			e.Wrap = io.ErrUnexpectedEOF
+		}
 		s.Errs = append(s.Errs, e)
+		var ret error = e
+		if s.ErrKind == ErrBareUnexpectedEOF {
+			s.Bare++
+			ret = io.ErrUnexpectedEOF
+		}
 		n := 0
 		if s.FailData && s.Calls == s.FailAt && len(p) > 0 && s.Pos < len(s.Data) {
 			n = 1 + (len(s.Data)-s.Pos-1)/2
@@ -140,7 +171,7 @@ func (s *Source) Read(p []byte) (int, error) {
 			copy(p, s.Data[s.Pos:s.Pos+n])
 			s.Pos += n
 		}
-		return n, e
+		return n, ret
 	}
 	if s.Pos >= len(s.Data) {
 		s.EOFs++
